@@ -25,6 +25,8 @@ META = {
 META["explanation"] += ' R10.9 the constructors number the initial items with enumerate() applied below any filter (positions in the source, not in the filtered output).'
 META["explanation"] += " R10.4 also checks the order of the two effects (the new item's entry is recorded after the shift, or outside its range) and that a path bypassing the shift loop has established `last kept index < index` strictly (path-sensitive facts)."
 META["explanation"] += " R10.10 filter mirror rule: on every path of the single-item handlers the change of the kept-index list's length equals the effect of the returned diff (entry added <=> PushFront / PushBack / Insert, removed <=> PopFront / PopBack / Remove, unchanged <=> Set or nothing)."
+META["explanation"] += ' R10.9 also decides the counter idiom (captured counter starting at 0, pushed for kept items before its increment). R10.11 source positions of a chunk of new items: an enumerate() whose indices reach the kept-index list sits below every position-changing adaptor; a running counter pushed onto the kept-index list does not start from that list (last kept index + 1 forgets rejected items).'
+META["explanation"] += ' R10.3 `+len`: the length added for Append / Reset must be that of the chunk the handler was given (a parameter, resolved at the use when the variable is re-bound later), not of a vector computed from it. R10.12 negative contract entry: no call of imbl::Vector::retain / FocusMut::{swap, pair, triplet} in eyeball-im and eyeball-im-util (known-bad in the pinned imbl 5.0.0; F9, repaired by 2cafcea).'
 
 PAIR = lambda n: re.sub(r"_filter(_map)?$", "", n or "")
 
@@ -98,6 +100,7 @@ def run(ctx):
     r10_7(ctx)
     r10_8(ctx)
     r10_11(ctx)
+    r10_12(ctx)
     r10_10(ctx, handlers)
     # R10.6
     for f, c, table, multi in ds:
@@ -188,7 +191,11 @@ def len_effects(F, f, depth=0):
                     if r[0] == "const" and r[3] == 1:
                         eff = sign + "1"
                     elif contains(adds[0][3], lambda y: y[0] == "call" and ecall_matches(y, r"::len$")):
-                        eff = sign + "len"
+                        lens = find_all(adds[0][3], lambda y: y[0] == "call" and ecall_matches(y, r"::len$"))
+                        recv = resolve_at(b, lens[0][3][0], lens[0][4]) if lens and lens[0][3] else ("?",)
+                        # the length added must be that of the chunk of source items the handler was given (a parameter), not of
+                        # something computed from it (the items that passed the filter ..)
+                        eff = sign + ("len" if recv[0] == "param" and recv[1] >= 2 else "len(of `%s`, not of the source chunk)" % fmt(recv, 2))
             out.append((eff, b.post_dominated_by(0, [loc[0]]), loc))
     if depth < 2:
         for blk, t in b.calls():
@@ -366,10 +373,18 @@ def r10_7(ctx):
                 ctx.undecided("R10.7", f, "initial-source-length", where, "original_len = %s" % fmt(e, 4))
                 continue
             recv = strip(x[3][0])
+            if recv[0] == "phi" and len(recv) > 2:
+                # `values` is re-bound later (`values = values.into_iter().filter(..).collect()`): only the definitions that can
+                # reach the `len()` call count - the parameter itself, and assignments whose block dominates the call
+                alive = [alt for alt, dl in zip(recv[1], recv[2]) if dl is None or (b.dominates(dl[0], x[4][0]) and dl[0] != x[4][0]) or (dl[0] == x[4][0] and dl[1] < x[4][1])]
+                if len(alive) == 1:
+                    recv = strip(alive[0])
             of_param = recv[0] == "param" and recv[1] == 1
             # no in-place filtering of the parameter before the length is read
             filt = [blk for blk, t in b.calls(r"::(retain|retain_mut|truncate|split_off|clear|remove|pop_front|pop_back)$") if strip(b.expr_of_op(t["args"][0]))[0] == "param" and strip(b.expr_of_op(t["args"][0]))[1] == 1]
-            early = any(b.dominates(fb, x[4][0]) for fb in filt)
+            whole_, _ = b.defs
+            rebinds = [dl[0] for dl, kind_, pl_ in whole_.get(1, [])]   # `values = <filtered values>` before the length is read
+            early = any(b.dominates(fb, x[4][0]) for fb in filt) or any(b.dominates(rb, x[4][0]) and rb != x[4][0] for rb in rebinds)
             ctx.verdict(of_param and not early, "R10.7", f, "initial-source-length", where, "original_len = values.len() of the given vector, read before filtering",
                         "`%s` initialises the recorded source length with `%s`%s: it must be the length of the unfiltered source, otherwise every later length-dependent diff gets wrong source indices" % (
                             f.path, fmt(e, 4), " after the vector was filtered in place" if early else ", which is not the given vector"))
@@ -399,6 +414,26 @@ def r10_7(ctx):
             ctx.verdict(not below, "R10.9", f, "initial-indices-enumerate-the-source", where, "enumerate() is applied to the unfiltered input",
                         "`%s` numbers the initial items with enumerate() *after* `%s`: the recorded indices are positions in the filtered output, not in the source, so every later positional diff is mapped to the wrong item" % (
                             f.path, below[0][1].split("::")[-1] if below else ""))
+
+
+def r10_12(ctx):
+    """contract table, negative entry: `imbl::Vector::retain` is NOT trusted in the pinned imbl 5.0.0 - through `FocusMut::swap` it
+    garbles a vector whose first chunk has been consumed from the front (reproduced: (0..195) after 131 pop_fronts). No adapter may
+    filter a vector in place with it (F9, repaired by 2cafcea: rebuild with into_iter().filter(..).collect())."""
+    F = ctx.facts
+    n = 0
+    for f in [x for x in F.fns.values() if x.crate in (UT, IM)]:
+        b = f.built
+        if not b:
+            continue
+        for blk, t in b.calls(r"^imbl::GenericVector::<.*>::retain$|^imbl::vector::FocusMut::<.*>::(swap|pair|triplet)$|^imbl::vector::focus::FocusMut::<.*>::(swap|pair|triplet)$"):
+            n += 1
+            root = root_fn(F, f)
+            what = (t.get("callee") or "").split("::")[-1]
+            ctx.violated("R10.12", root, "no-imbl-retain", b.line_at((blk, 10 ** 6)),
+                         "`%s` uses imbl's `%s`, which in the pinned imbl 5.0.0 (FocusMut::swap / pair / triplet, and Vector::retain built on them) ignores the offset of a leaf chunk that was consumed from the front: on an ObservableVector after pop_front it drops / permutes items, so the result is not what the operation documents" % (root.path, what))
+    if not n:
+        ctx.holds("R10.12", None, "no-imbl-retain", None, "no call of imbl::Vector::retain / FocusMut::{swap, pair, triplet} in eyeball-im and eyeball-im-util")
 
 
 def r10_11(ctx):
@@ -488,7 +523,7 @@ def counter_idiom(F, f, b):
             continue
         nm = incs[0][1]
         # the closure is handed to a whole-vector traversal of the parameter
-        used = [t for blk, t in b.calls(r"GenericVector::<.*>::(retain|iter|into_iter)$|Iterator>?::for_each$") if c.path in (t.get("garg_defs") or []) or any(isinstance(g_, str) and g_ == c.path for g_ in (t.get("garg_defs") or []))]
+        used = [t for blk, t in b.calls(r"GenericVector::<.*>::(retain|iter|into_iter)$|Iterator>?::(for_each|filter|filter_map|map|inspect)$") if c.path in (t.get("garg_defs") or []) or any(isinstance(g_, str) and g_ == c.path for g_ in (t.get("garg_defs") or []))]
         pblk, pt = pushes[0]
         pushed = cb.expr_of_op(pt["args"][1])
         is_counter = strip(pushed)[0] == "field" and strip(pushed)[2] == nm
